@@ -1398,6 +1398,9 @@ impl Interpreter {
         self.env_guards.clear();
         // ... and what it exported so far will never be finalised
         self.exports.clear();
+        // Nothing of it is waiting to be resumed any more
+        self.suspended_for_order = None;
+        self.wait_graph = WaitGraph::new();
         self.active_module_env = None;
         self.active_module_path = None;
     }
@@ -1415,8 +1418,13 @@ impl Interpreter {
         use crate::compiler::Compiler;
         use bytecode_vm::BytecodeVM;
 
-        // A previous run that the host stopped stepping must not leak its scope into this one
-        if self.active_vm.is_some() {
+        // A previous run that the host stopped stepping - in the middle of its code, or while
+        // it was suspended on an order or on a promise - must not leak into this one
+        if self.active_vm.is_some()
+            || self.active_saved_env.is_some()
+            || self.suspended_for_order.is_some()
+            || self.wait_graph.has_waiting_contexts()
+        {
             self.abort_active_execution();
         }
 
